@@ -1,0 +1,27 @@
+//go:build verif
+
+package http3
+
+// C34, quick-tier lemma for the reading side (the full contract of bodyReader.Read is a
+// thorough-tier unit). The REAL body of bodyReader.Read is executed (usebody) for the states in
+// which a DATA frame is being read (no recorded error, no pending 100-continue callback, payload
+// left in the current frame: lim > 0), i.e. the states in which body bytes are delivered without
+// reading a frame header first. For these states, for every stream content and every buffer:
+// with a declared Content-Length (remain >= 0) remain decreases by exactly the number of bytes
+// DELIVERED (n, which may be smaller than the buffer and than the frame payload: short reads), it
+// never goes negative, the frame limit decreases by the same n, and without a declared length
+// remain is unchanged.
+//
+//@ lemma
+//@ usebody (*bodyReader).Read
+//@ requires bodyReaderInv(r) && eofIsForeign()
+//@ requires r.err == nil && r.send100Continue == nil && r.st.lim > 0
+//@ ensures  0 <= n && n <= len(p)
+//@ ensures  old(r.remain) >= 0 ==> r.remain == old(r.remain) - int64(n) && r.remain >= 0
+//@ ensures  old(r.remain) < 0 ==> r.remain == old(r.remain)
+//@ ensures  err == nil ==> r.st.lim == old(r.st.lim) - int64(n)
+//@ modifies r.err, r.remain, r.send100Continue, r.mu, r.st.lim, r.st.stream, r.st.stream.inbuf, r.st.stream.inbufoff, elems(p)
+//@ allocates
+func lemmaReadInFrameAccounting(r *bodyReader, p []byte) (n int, err error) {
+	return r.Read(p)
+}
